@@ -5,7 +5,10 @@ package c18
 // single-token mutations.  Nothing here decides validity: every generated
 // text, whatever its origin, is judged by the reference recogniser.
 
-import "strings"
+import (
+	"strconv"
+	"strings"
+)
 
 // token kinds of a sentence shape
 const (
@@ -350,5 +353,68 @@ func specialDocs() []string {
 		`"` + strings.Repeat("a", 300) + `"`, `"` + strings.Repeat(`\n`, 150) + `"`, `"` + strings.Repeat("\u00e9", 150) + `"`, strings.Repeat("1", 400), "0." + strings.Repeat("0", 400) + "1", "1" + strings.Repeat("0", 400) + ".0",
 		"[" + strings.Repeat("0,", 200) + "0]", " [ 1 , 2 ] ", "\n{\n\t\"a\" : [ ] ,\r\n \"b\" : { }\n}\n",
 		`/* c */ 1`, `1 // c`, `[1, /* c */ 2]`, `# c` + "\n1", `{a:1}`, `{'a':1}`, `[1;2]`, `(1)`, `[1,2)`, `<1>`, `[true,false,null]`, `[True]`, `[nul]`,
+	}
+}
+
+// wideDocs: flat documents with very many members.  A decoder keeps state
+// from one member to the next (position, nesting depth, scratch buffers), so
+// every kind of member is also read as the k-th of n equal neighbours, with n
+// on both sides of the documented nesting limit (10000) and of powers of two.
+func wideDocs(thorough bool, yield func(string)) {
+	elems := []string{"[]", "{}", "0", `""`, "[0]", `{"a":0}`, "[[]]", "null", `{"a":[]}`, "-1.5e3", `"\u00e9"`, `[{}]`, `{"a":{}}`, "true"}
+	widths := []int{100, 1000, 9999, 10000, 10001, 20001, 65537}
+	if thorough {
+		widths = append(widths, 100000, 300001)
+	}
+	for _, n := range widths {
+		for _, e := range elems {
+			var sb strings.Builder
+			// array of n
+			sb.WriteByte('[')
+			for i := 0; i < n; i++ {
+				if i > 0 {
+					sb.WriteByte(',')
+				}
+				sb.WriteString(e)
+			}
+			sb.WriteByte(']')
+			yield(sb.String())
+			// the same with white space and line ends between the members
+			sb.Reset()
+			sb.WriteString("[\n")
+			for i := 0; i < n; i++ {
+				if i > 0 {
+					sb.WriteString(" ,\r\n\t")
+				}
+				sb.WriteString(e)
+			}
+			sb.WriteString("\n]")
+			yield(sb.String())
+			// object of n distinct members
+			sb.Reset()
+			sb.WriteByte('{')
+			for i := 0; i < n; i++ {
+				if i > 0 {
+					sb.WriteByte(',')
+				}
+				sb.WriteString(`"k`)
+				sb.WriteString(strconv.Itoa(i))
+				sb.WriteString(`":`)
+				sb.WriteString(e)
+			}
+			sb.WriteByte('}')
+			yield(sb.String())
+			// n/2 pairs, each in its own array
+			sb.Reset()
+			sb.WriteByte('[')
+			for i := 0; i < n/2; i++ {
+				if i > 0 {
+					sb.WriteByte(',')
+				}
+				sb.WriteString("[" + e + "," + e + "]")
+			}
+			sb.WriteByte(']')
+			yield(sb.String())
+		}
 	}
 }
